@@ -92,6 +92,12 @@ def hook_fn(hid):
         f = hid[len('fill:'):]
         def h(self):
             object.__setattr__(self, f, 0)
+    elif hid.startswith('need_set:'):
+        # a hook that READS the record of set fields: valid only when exactly k fields were supplied
+        k = int(hid[len('need_set:'):])
+        def h(self):
+            if len(self.__pane_set__) != k:
+                raise ValueError('need_set')
     elif hid.startswith('assign:'):
         # the same through a PLAIN assignment (classes that are not frozen): `PaneBase.__setattr__` runs, which needs the instance
         # to be fully set up when the hook is called -- on every path.  (The record of set fields is left as it was.)
